@@ -189,6 +189,17 @@ impl Shell {
         }
     }
 
+    /// A member of a stopped job was continued while others stay stopped:
+    /// the job is shown as running, the stopped marks of the others stay.
+    pub fn mark_job_as_partly_running(&mut self, gid: i32) {
+        for job in self.jobs.values_mut() {
+            if job.gid == gid {
+                job.status = "Running".to_string();
+                return;
+            }
+        }
+    }
+
     pub fn mark_job_as_stopped(&mut self, gid: i32) {
         if self.jobs.is_empty() {
             return;
